@@ -10,9 +10,9 @@
 (***************************************************************************)
 EXTENDS TraceLib
 
-VARIABLES l, run, ih, chain, top, phase, got, lastH, nextExec, fresh, maxExec, onDA, finals, cur, chunks, cleanStop, viol
+VARIABLES l, run, ih, chain, top, phase, got, lastH, nextExec, fresh, maxExec, onDA, finals, cur, chunks, cleanStop, lastIncl, viol
 
-vars == <<l, run, ih, chain, top, phase, got, lastH, nextExec, fresh, maxExec, onDA, finals, cur, chunks, cleanStop, viol>>
+vars == <<l, run, ih, chain, top, phase, got, lastH, nextExec, fresh, maxExec, onDA, finals, cur, chunks, cleanStop, lastIncl, viol>>
 
 NoB == [h |-> 0, hh |-> 0, hash |-> "?", prev |-> "?", t |-> 0, txs |-> <<>>, app |-> <<>>, appok |-> FALSE,
         dh |-> FALSE, sig |-> "none", ssig |-> "none", meta |-> "none", cid |-> FALSE, idx |-> FALSE, dc |-> "?"]
@@ -67,7 +67,7 @@ ObsChecks(o) == <<
 
 Init ==
     /\ l = 1 /\ run = "" /\ ih = 1 /\ chain = <<>> /\ top = 0 /\ phase = "" /\ got = {} /\ lastH = 0
-    /\ nextExec = 1 /\ fresh = FALSE /\ maxExec = 0 /\ onDA = {} /\ finals = {} /\ cur = 1 /\ chunks = 0 /\ cleanStop = FALSE /\ viol = <<>>
+    /\ nextExec = 1 /\ fresh = FALSE /\ maxExec = 0 /\ onDA = {} /\ finals = {} /\ cur = 1 /\ chunks = 0 /\ cleanStop = FALSE /\ lastIncl = 0 /\ viol = <<>>
 
 e == Trace[l]
 Is(name) == l <= N /\ e.ev = name
@@ -77,28 +77,29 @@ Full == "node" \in DOMAIN e /\ e.node = "full"
 TReset ==
     /\ Is("Reset") /\ Adv
     /\ run' = e.run /\ ih' = e.ih /\ chain' = <<>> /\ top' = 0 /\ phase' = "" /\ got' = {} /\ lastH' = 0
-    /\ nextExec' = e.ih /\ fresh' = FALSE /\ maxExec' = e.ih - 1 /\ onDA' = {} /\ finals' = {} /\ cur' = (IF "dastart" \in DOMAIN e THEN e.dastart ELSE 1) /\ chunks' = 0 /\ cleanStop' = FALSE
+    /\ nextExec' = e.ih /\ fresh' = FALSE /\ maxExec' = e.ih - 1 /\ onDA' = {} /\ finals' = {} /\ cur' = (IF "dastart" \in DOMAIN e THEN e.dastart ELSE 1) /\ chunks' = 0 /\ cleanStop' = FALSE /\ lastIncl' = 0
     /\ UNCHANGED viol
 
 TChain ==
     /\ Is("Chain") /\ Adv
     /\ chain' = e.blocks /\ top' = e.top
-    /\ UNCHANGED <<run, ih, phase, got, lastH, nextExec, fresh, maxExec, onDA, finals, cur, chunks, cleanStop, viol>>
+    /\ UNCHANGED <<run, ih, phase, got, lastH, nextExec, fresh, maxExec, onDA, finals, cur, chunks, cleanStop, lastIncl, viol>>
 
 TPhase ==
     /\ Is("Phase") /\ Adv /\ phase' = e.name
-    /\ UNCHANGED <<run, ih, chain, top, got, lastH, nextExec, fresh, maxExec, onDA, finals, cur, chunks, cleanStop, viol>>
+    /\ UNCHANGED <<run, ih, chain, top, got, lastH, nextExec, fresh, maxExec, onDA, finals, cur, chunks, cleanStop, lastIncl, viol>>
 
 TDeliver ==
     /\ Is("Deliver") /\ Adv
     /\ got' = IF e.via \in {"chan", "p2p", "queued", "persistent-p2p"} THEN got \cup {<<e.kind, e.h>>} ELSE got
     /\ onDA' = IF e.via \in {"da", "queued"} THEN onDA \cup {[kind |-> e.kind, h |-> e.h, dah |-> e.dah]} ELSE onDA
-    /\ UNCHANGED <<run, ih, chain, top, phase, lastH, nextExec, fresh, maxExec, finals, cur, chunks, cleanStop, viol>>
+    /\ UNCHANGED <<run, ih, chain, top, phase, lastH, nextExec, fresh, maxExec, finals, cur, chunks, cleanStop, lastIncl, viol>>
 
 TObs ==
     /\ Is("Obs") /\ Full /\ Adv
     /\ viol' = viol \o Failed(ObsChecks(e), l, run)
     /\ lastH' = MaxOf(lastH, e.height)
+    /\ lastIncl' = (IF e.up THEN e.incl ELSE lastIncl)
     /\ cur' = IF e.tag = "restart" THEN e.daCur ELSE cur
     /\ chunks' = IF e.tag = "restart" THEN 0 ELSE chunks
     /\ UNCHANGED <<run, ih, chain, top, phase, got, nextExec, fresh, maxExec, onDA, finals, cleanStop>>
@@ -114,12 +115,12 @@ TExec ==
     /\ nextExec' = IF e.ok THEN e.h + 1 ELSE nextExec
     /\ maxExec' = IF e.ok THEN MaxOf(maxExec, e.h) ELSE maxExec
     /\ fresh' = IF e.ok THEN FALSE ELSE fresh
-    /\ UNCHANGED <<run, ih, chain, top, phase, got, lastH, onDA, finals, cur, chunks, cleanStop>>
+    /\ UNCHANGED <<run, ih, chain, top, phase, got, lastH, onDA, finals, cur, chunks, cleanStop, lastIncl>>
 
 TFinal ==
     /\ Is("ExecFinal") /\ Full /\ Adv
     /\ finals' = IF e.ok THEN finals \cup {e.h} ELSE finals
-    /\ UNCHANGED <<run, ih, chain, top, phase, got, lastH, nextExec, fresh, maxExec, onDA, cur, chunks, cleanStop, viol>>
+    /\ UNCHANGED <<run, ih, chain, top, phase, got, lastH, nextExec, fresh, maxExec, onDA, cur, chunks, cleanStop, lastIncl, viol>>
 
 \* header-only node: what go-header admitted to the store it serves to light clients
 TLight ==
@@ -128,7 +129,7 @@ TLight ==
           <<"C03.LightOnlyGenuine", e.res = "admitted" => e.sig = "P" /\ e.hash = C(e.h).hash, "a header not signed by the proposer's key was admitted to the header store of a header-only node">>,
           <<"C03.LightFollows", e.class = "genuine" => e.res = "admitted", "third-party material prevented the header-only node from admitting the proposer's header">>
           >>, l, run)
-    /\ UNCHANGED <<run, ih, chain, top, phase, got, lastH, nextExec, fresh, maxExec, onDA, finals, cur, chunks, cleanStop>>
+    /\ UNCHANGED <<run, ih, chain, top, phase, got, lastH, nextExec, fresh, maxExec, onDA, finals, cur, chunks, cleanStop, lastIncl>>
 
 \* fetch history of the scan: the node must ask for exactly the cursor height; the cursor moves on after
 \* "nothing here" or after the listing and every id chunk were fetched
@@ -137,18 +138,18 @@ TGetIDs ==
     /\ viol' = viol \o Failed(<< <<"C09.ScansInOrder", e.dah = cur, "the scan examined a DA height other than the next unexamined one">> >>, l, run)
     /\ cur' = IF e.dah = cur /\ e.res = "notfound" THEN cur + 1 ELSE cur
     /\ chunks' = IF e.res \in {"ok", "okchunkerr"} THEN (e.nids + 99) \div 100 ELSE 0
-    /\ UNCHANGED <<run, ih, chain, top, phase, got, lastH, nextExec, fresh, maxExec, onDA, finals, cleanStop>>
+    /\ UNCHANGED <<run, ih, chain, top, phase, got, lastH, nextExec, fresh, maxExec, onDA, finals, cleanStop, lastIncl>>
 
 TGet ==
     /\ Is("DAGet") /\ phase = "sync" /\ Adv
     /\ chunks' = IF e.res = "ok" /\ chunks > 0 THEN chunks - 1 ELSE 0
     /\ cur' = IF e.res = "ok" /\ chunks = 1 /\ e.dah = cur THEN cur + 1 ELSE cur
-    /\ UNCHANGED <<run, ih, chain, top, phase, got, lastH, nextExec, fresh, maxExec, onDA, finals, cleanStop, viol>>
+    /\ UNCHANGED <<run, ih, chain, top, phase, got, lastH, nextExec, fresh, maxExec, onDA, finals, cleanStop, lastIncl, viol>>
 
 TCrash ==
     /\ Is("Crash") /\ Full /\ Adv
     /\ got' = {} /\ fresh' = TRUE
-    /\ UNCHANGED <<run, ih, chain, top, phase, lastH, nextExec, maxExec, onDA, finals, cur, chunks, cleanStop, viol>>
+    /\ UNCHANGED <<run, ih, chain, top, phase, lastH, nextExec, maxExec, onDA, finals, cur, chunks, cleanStop, lastIncl, viol>>
 
 \* the process was stopped without an orderly shutdown: volatile caches are gone
 TStop ==
@@ -156,21 +157,21 @@ TStop ==
     /\ got' = IF e.clean THEN got ELSE {}
     /\ fresh' = IF e.clean THEN fresh ELSE TRUE
     /\ cleanStop' = e.clean
-    /\ UNCHANGED <<run, ih, chain, top, phase, lastH, nextExec, maxExec, onDA, finals, cur, chunks, viol>>
+    /\ UNCHANGED <<run, ih, chain, top, phase, lastH, nextExec, maxExec, onDA, finals, cur, chunks, lastIncl, viol>>
 
 TRestart ==
     /\ Is("Restart") /\ Full /\ Adv
     /\ viol' = viol \o Failed(<< <<"C05.RestartFailed", e.ok, "node cannot start on an image it wrote itself">> >>, l, run)
     \* a start that does not follow an orderly shutdown may re-execute the block that was in flight
     /\ fresh' = (IF cleanStop THEN fresh ELSE TRUE) /\ cleanStop' = FALSE
-    /\ UNCHANGED <<run, ih, chain, top, phase, got, lastH, nextExec, maxExec, onDA, finals, cur, chunks>>
+    /\ UNCHANGED <<run, ih, chain, top, phase, got, lastH, nextExec, maxExec, onDA, finals, cur, chunks, lastIncl>>
 
 TNodeErr ==
     /\ (Is("NodeErr") \/ Is("Panic")) /\ Full /\ Adv
     /\ viol' = viol \o Failed(<< <<"C02.Halted", FALSE, "the node halted (sync error or panic) on genuine / third-party traffic">>,
                                  <<"C03.Halted", FALSE, "the node halted (sync error or panic) on genuine / third-party traffic">> >>, l, run)
     /\ got' = {} /\ fresh' = TRUE
-    /\ UNCHANGED <<run, ih, chain, top, phase, lastH, nextExec, maxExec, onDA, finals, cur, chunks, cleanStop>>
+    /\ UNCHANGED <<run, ih, chain, top, phase, lastH, nextExec, maxExec, onDA, finals, cur, chunks, cleanStop, lastIncl>>
 
 TQuiesce ==
     /\ Is("Quiesce") /\ Adv
@@ -178,16 +179,18 @@ TQuiesce ==
           <<"C02.Converged", (e.up /\ e.height = e.top) \/ (e.up /\ AliasStall(e.height)), "after every event was delivered the node is not at the proposer's height">>,
           <<"C05.Converged", (e.up /\ e.height = e.top) \/ (e.up /\ AliasStall(e.height)), "after restart and re-delivery the node did not reach the proposer's chain">>,
           <<"C03.Converged", (e.up /\ e.height = e.top) \/ (e.up /\ AliasStall(e.height)), "third-party material prevented the node from following the proposer's chain">>,
+          <<"C05.InclusionResumes", (e.up /\ e.height = e.top /\ (\A h \in ih .. top : \E d \in onDA : d.kind = "hdr" /\ d.h = h)) => lastIncl = e.top,
+              "every block is on the DA layer and applied, but the node's DA-included height did not reach the chain height">>,
           <<"C02.Converged.alias", ~(e.up /\ e.height < e.top /\ AliasStall(e.height)), "stuck below a block whose tx list equals another block's (data de-duplicated by commitment)">>
           >>, l, run)
-    /\ UNCHANGED <<run, ih, chain, top, phase, got, lastH, nextExec, fresh, maxExec, onDA, finals, cur, chunks, cleanStop>>
+    /\ UNCHANGED <<run, ih, chain, top, phase, got, lastH, nextExec, fresh, maxExec, onDA, finals, cur, chunks, cleanStop, lastIncl>>
 
 TOther ==
     /\ l <= N /\ Adv
     /\ ~(e.ev \in {"Reset", "Chain", "Phase", "Deliver", "Quiesce", "LightOffer"})
     /\ ~(e.ev \in {"DAGetIDs", "DAGet"} /\ phase = "sync")
     /\ ~(Full /\ e.ev \in {"Obs", "ExecTxs", "Crash", "Restart", "NodeErr", "Panic", "Stop", "ExecFinal"})
-    /\ UNCHANGED <<run, ih, chain, top, phase, got, lastH, nextExec, fresh, maxExec, onDA, finals, cur, chunks, cleanStop, viol>>
+    /\ UNCHANGED <<run, ih, chain, top, phase, got, lastH, nextExec, fresh, maxExec, onDA, finals, cur, chunks, cleanStop, lastIncl, viol>>
 
 Next == TGetIDs \/ TGet \/ TLight \/ TFinal \/ TStop \/ TReset \/ TChain \/ TPhase \/ TDeliver \/ TObs \/ TExec \/ TCrash \/ TRestart \/ TNodeErr \/ TQuiesce \/ TOther
 Spec == Init /\ [][Next]_vars
